@@ -18,8 +18,10 @@ import (
 	"os"
 	"path/filepath"
 	"reflect"
+	"sort"
 	"strconv"
 	"strings"
+	"unicode/utf8"
 
 	ucfg "github.com/elastic/go-ucfg"
 	"github.com/elastic/go-ucfg/cfgutil"
@@ -28,6 +30,7 @@ import (
 	ujson "github.com/elastic/go-ucfg/json"
 	"github.com/elastic/go-ucfg/parse"
 	"github.com/elastic/go-ucfg/yaml"
+	yamlv2 "gopkg.in/yaml.v2"
 
 	"verif/internal/gen"
 	"verif/internal/harness"
@@ -49,7 +52,7 @@ func (check) Cases(tier string) int {
 }
 
 func (check) Rule() string {
-	return "one sequence per case: 65% key=value flag (1-10 arguments over the keys a,b,c,l,a.b,a.c,l.0,l.1,l.0.k,c.0.b, a previous key reused w.p. 1/2, an identical earlier argument string repeated w.p. 1/6; 1 in 14 arguments has its '=' in an odd place (empty key \"=v\", \"=\", \"==x\", \"=a=b\", key==x, the empty argument), for both autoBool settings; values in every parse.Value syntax: uint/int/float/hex, bool words, null, bare words, single and double quoted, comma lists, [..] lists, {..} objects, nested, padded, trailing commas; empty value; bare key; malformed arguments (table + truncations of valid values) at a random position and w.p. 1/4 after it; autoBool off in 15% so that a bare key is the flag's own malformed form; 15% driven through a real flag.FlagSet/ConfigVar), 20% file flag (loader table: all four extensions / a random subset plus a \"\" fallback / only a fallback / yaml+yml+json, through NewFlagFiles or the public wrappers ConfigFilesVar, ConfigYAMLFilesVar, ConfigJSONFilesVar, ConfigFilesExtsVar; with a partial table 1 in 3 file names has a foreign extension .conf/.cfg/.txt/none; 1 in 8 sequences has VarExp and documents whose strings are ${...} references into the initial config; 1-5 temp files .yaml/.yml/.json/.hjson holding JSON renderings of correlated dict trees, every argument after the first names an earlier path again w.p. 1/3, half of the sequences put a differing non-empty list under one key shared by all documents; 1 in 4 sequences spell members of top-level dictionaries as dotted keys; a missing file / unknown extension / truncated document / scalar document as the failing argument), 15% cfgutil.Collector directly (Add(cfg,nil)/Add(nil,nil)/Add(nil,err) histories, GetOptions). Option sets: PathSep(\".\") +- one of {ReplaceValues, ReplaceArrValues, AppendValues, PrependValues} +- VarExp (6% of key=value cases, never with ReplaceValues; primitive-valued references to keys of the initial config only; half of them with a Resolve option that alone knows ${ext}; 1 in 4 arguments there is a reference to the keys u/w or sets u/w, so that a reference may precede its target and the config is unreadable in between); initial config nil or a small dictionary. In 1 of 5 sequences the case overwrites its own option slice (other separator, other policy) right after the flag/collector was created; the options given at creation stay the flag's options. After EVERY Set/Add the config is read back and compared. Before every argument of the two flags (and after the last) w.p. 1/3 one or two read-only calls (String, Config, Get, Error) are interleaved; a read must change neither the config nor Error(). Non-trivial = at least two accepted settings before the first failure whose keys are equal or one a path prefix of the other (files/collector: share a top-level key or both carry a list); distinct = distinct (mode, option set, autoBool, initial config, argument texts)."
+	return "one sequence per case: 65% key=value flag (1-10 arguments over the keys a,b,c,l,a.b,a.c,l.0,l.1,l.0.k,c.0.b, a previous key reused w.p. 1/2, an identical earlier argument string repeated w.p. 1/6; 1 in 14 arguments has its '=' in an odd place (empty key \"=v\", \"=\", \"==x\", \"=a=b\", key==x, the empty argument), for both autoBool settings; values in every parse.Value syntax: uint/int/float/hex, bool words, null, bare words, single and double quoted, comma lists, [..] lists, {..} objects, nested, padded, trailing commas; empty value; bare key; malformed arguments (table + truncations of valid values) at a random position and w.p. 1/4 after it; autoBool off in 15% so that a bare key is the flag's own malformed form; 15% driven through a real flag.FlagSet/ConfigVar), 20% file flag (documents written in JSON (62%), YAML block style, HJSON's own syntax (comments, unquoted names, trailing commas) or empty, mostly but not always under a name that promises the syntax; 2 of 3 sequences give every document a setting that is only spelled with a dotted name; loader table: all four extensions / a random subset plus a \"\" fallback / only a fallback / yaml+yml+json, through NewFlagFiles or the public wrappers ConfigFilesVar, ConfigYAMLFilesVar, ConfigJSONFilesVar, ConfigFilesExtsVar; with a partial table 1 in 3 file names has a foreign extension .conf/.cfg/.txt/none; 1 in 8 sequences has VarExp and documents whose strings are ${...} references into the initial config; 1-5 temp files .yaml/.yml/.json/.hjson holding JSON renderings of correlated dict trees, every argument after the first names an earlier path again w.p. 1/3, half of the sequences put a differing non-empty list under one key shared by all documents; 1 in 4 sequences spell members of top-level dictionaries as dotted keys; a missing file / unknown extension / truncated document / scalar document as the failing argument), 15% cfgutil.Collector directly (Add(cfg,nil)/Add(nil,nil)/Add(nil,err) histories, GetOptions). Option sets: 2 of 3 padded with 1-8 neutral options (StructTag(config), ValidatorTag(validate), MaxIdx(1024), EnableNumKeys(false), FieldMergeValues()) at random places and rotated, so that the list has 1-12 entries and any option (w.p. 4/9 the separator) comes last; PathSep(\".\") +- one of {ReplaceValues, ReplaceArrValues, AppendValues, PrependValues} +- VarExp (6% of key=value cases, never with ReplaceValues; primitive-valued references to keys of the initial config only; half of them with a Resolve option that alone knows ${ext}; 1 in 4 arguments there is a reference to the keys u/w or sets u/w, so that a reference may precede its target and the config is unreadable in between); initial config nil or a small dictionary. In 1 of 5 sequences the case overwrites its own option slice (other separator, other policy) right after the flag/collector was created; the options given at creation stay the flag's options. After EVERY Set/Add the config is read back and compared. Before every argument of the two flags (and after the last) w.p. 1/3 one or two read-only calls (String, Config, Get, Error) are interleaved; a read must change neither the config nor Error(). Non-trivial = at least two accepted settings before the first failure whose keys are equal or one a path prefix of the other (files/collector: share a top-level key or both carry a list); distinct = distinct (mode, option set, autoBool, initial config, argument texts)."
 }
 
 func (check) Assumptions() []string {
@@ -79,6 +82,21 @@ type optSet struct {
 	none   bool   // no options at all (collector only)
 	swap   bool   // policy option before PathSep
 	sep    string // "" means "."
+	// neutral options (they restate defaults) inserted at fill[i].pos, and the
+	// whole list rotated by rot: the LENGTH of the option list and WHICH option
+	// comes last vary, what the options mean does not
+	fill []filler
+	rot  int
+}
+
+type filler struct{ pos, id int }
+
+var neutralOpts = []func() ucfg.Option{
+	func() ucfg.Option { return ucfg.StructTag("config") },
+	func() ucfg.Option { return ucfg.ValidatorTag("validate") },
+	func() ucfg.Option { return ucfg.MaxIdx(1024) },
+	func() ucfg.Option { return ucfg.EnableNumKeys(false) },
+	func() ucfg.Option { return ucfg.FieldMergeValues() },
 }
 
 // scribbled returns the option set the case writes into ITS OWN option slice
@@ -113,6 +131,9 @@ func (o optSet) name() string {
 	}
 	if o.resolv {
 		s += "+resolve"
+	}
+	if len(o.fill) > 0 {
+		s += fmt.Sprintf("+neutral%d", len(o.fill))
 	}
 	return s
 }
@@ -161,7 +182,32 @@ func (o optSet) opts() []ucfg.Option {
 	if o.resolv {
 		l = append(l, ucfg.Resolve(resolver))
 	}
+	for _, f := range o.fill {
+		at := f.pos % (len(l) + 1)
+		l = append(l, nil)
+		copy(l[at+1:], l[at:])
+		l[at] = neutralOpts[f.id%len(neutralOpts)]()
+	}
+	if n := len(l); n > 1 && o.rot%n != 0 {
+		k := o.rot % n
+		l = append(append(make([]ucfg.Option, 0, n), l[k:]...), l[:k]...)
+	}
 	return l
+}
+
+// lastOpt names the option that comes last in the list.
+func (o optSet) lastOpt() string {
+	l := o.opts()
+	if len(l) == 0 {
+		return "none"
+	}
+	last := reflect.ValueOf(l[len(l)-1]).Pointer()
+	for name, opt := range map[string]ucfg.Option{"pathsep": ucfg.PathSep("."), "policy": ucfg.ReplaceValues, "varexp": ucfg.VarExp, "resolve": ucfg.Resolve(resolver)} {
+		if reflect.ValueOf(opt).Pointer() == last {
+			return name
+		}
+	}
+	return "neutral"
 }
 
 // read returns the options used for the pure read (no merge policy).
@@ -184,6 +230,25 @@ func genOptSet(r *rand.Rand, allowVarExp bool) optSet {
 		if o.pol == model.PReplace {
 			// replacing the top level drops the initial keys the references point to
 			o.pol = model.PDefault
+		}
+	}
+	if r.Intn(3) > 0 {
+		// longer option lists (up to 4 + 8), any option last
+		for c := 1 + r.Intn(8); c > 0; c-- {
+			o.fill = append(o.fill, filler{r.Intn(16), r.Intn(len(neutralOpts))})
+		}
+		o.rot = r.Intn(16)
+		if r.Intn(3) > 0 {
+			// an option that decides how a setting is CREATED (the separator)
+			// comes last
+			o.rot = 0
+			l := o.opts()
+			ps := reflect.ValueOf(ucfg.PathSep(".")).Pointer()
+			for i, opt := range l {
+				if reflect.ValueOf(opt).Pointer() == ps {
+					o.rot = (i + 1) % len(l)
+				}
+			}
 		}
 	}
 	return o
@@ -788,8 +853,11 @@ type monitor struct {
 	havePrev  bool
 	atFailGot string
 	argClass  string // class of the current argument (set by the caller before step)
-	altDiffer bool   // the overwritten options would have made a difference
-	diverged  bool   // a config mismatch was reported; stop comparing configs
+	// fresh reports whether a NEW flag with the same options, given only the
+	// current argument, agrees with the reference for that argument alone
+	fresh     func() bool
+	altDiffer bool // the overwritten options would have made a difference
+	diverged  bool // a config mismatch was reported; stop comparing configs
 	unread    bool
 	mattered  bool
 }
@@ -898,6 +966,11 @@ func (mo *monitor) step(i int, arg, kind string, ret error, retIdentity bool, cf
 	case st.os.pol != model.PDefault && st.canonNoErr == nil && got == st.canonNo && got != st.canon && (!haveM || got == wantMNo):
 		// observed == sequential merges WITHOUT the options != with the options
 		res.Violate("collector-drops-options:merge-policy", "policy %v ignored while accumulating: %s", st.os.pol, detail)
+	case i > 0 && mo.fresh != nil && got != st.canon && mo.fresh():
+		// all earlier arguments matched, this one does not, and a fresh flag
+		// handles the same argument correctly: what the flag does with an
+		// argument depends on the Sets before it
+		res.Violate("later-set-differs-from-fresh-flag", "a new flag with the same options handles this argument like the reference, this flag (after %d earlier Sets) does not: %s", i, detail)
 	case strings.HasPrefix(arg, "=") && got != st.canon:
 		// '=' is the first character: the key is empty, the rest is the value
 		res.Violate("empty-key-argument-mishandled", "%s", detail)
@@ -1240,6 +1313,11 @@ func argTexts(args []kvArg) string {
 
 func finish(res *harness.R, mo *monitor, os optSet, mode string, effective []string, key string) {
 	res.SetAdd("optset", os.name())
+	res.SetAdd("option_count", strconv.Itoa(len(os.opts())))
+	res.SetAdd("last_option", os.lastOpt())
+	if len(os.opts()) >= 5 {
+		res.Ev("sequences_with_5_or_more_options", 1)
+	}
 	if mo.mattered {
 		res.SetAdd("policy_mattered", os.pol.String())
 		res.Ev("sequences_where_policy_matters", 1)
@@ -1359,8 +1437,19 @@ var foreignExts = []string{".conf", ".cfg", ".txt", ""}
 // the loader registered for its extension, else by the entry under "" (the
 // documented default fallback), else the argument fails.
 type loaderTable struct {
-	kind string
-	m    map[string]flag.FileLoader
+	kind  string
+	m     map[string]flag.FileLoader
+	names map[string]string // which front-end sits behind each entry
+}
+
+var loaderNames = map[string]string{".yaml": "yaml", ".yml": "yaml", ".json": "json", ".hjson": "hjson"}
+
+// frontEnd names the loader that reads the path ("" if none).
+func (t loaderTable) frontEnd(path string) string {
+	if n, ok := t.names[filepath.Ext(path)]; ok {
+		return n
+	}
+	return t.names[""]
 }
 
 func (t loaderTable) lookup(path string) (flag.FileLoader, bool) {
@@ -1382,23 +1471,107 @@ var fallbackLoaders = []struct {
 func genTable(r *rand.Rand) loaderTable {
 	switch k := r.Intn(100); {
 	case k < 50:
-		return loaderTable{"all4", loaders}
-	case k < 72:
-		m := map[string]flag.FileLoader{}
+		return loaderTable{"all4", loaders, loaderNames}
+	case k < 68:
+		m, nm := map[string]flag.FileLoader{}, map[string]string{}
 		for _, e := range exts {
 			if r.Intn(2) == 0 {
-				m[e] = loaders[e]
+				m[e], nm[e] = loaders[e], loaderNames[e]
 			}
 		}
 		fb := fallbackLoaders[r.Intn(len(fallbackLoaders))]
-		m[""] = fb.l
-		return loaderTable{fmt.Sprintf("subset%d+fallback:%s", len(m)-1, fb.name), m}
+		m[""], nm[""] = fb.l, fb.name
+		return loaderTable{fmt.Sprintf("subset%d+fallback:%s", len(m)-1, fb.name), m, nm}
 	case k < 88:
 		fb := fallbackLoaders[r.Intn(len(fallbackLoaders))]
-		return loaderTable{"fallback-only:" + fb.name, map[string]flag.FileLoader{"": fb.l}}
+		return loaderTable{"fallback-only:" + fb.name, map[string]flag.FileLoader{"": fb.l}, map[string]string{"": fb.name}}
 	default:
-		return loaderTable{"yaml+yml+json", map[string]flag.FileLoader{".yaml": loaders[".yaml"], ".yml": loaders[".yml"], ".json": loaders[".json"]}}
+		return loaderTable{"yaml+yml+json", map[string]flag.FileLoader{".yaml": loaders[".yaml"], ".yml": loaders[".yml"], ".json": loaders[".json"]},
+			map[string]string{".yaml": "yaml", ".yml": "yaml", ".json": "json"}}
 	}
+}
+
+// renderHjson writes the document in HJSON's own syntax: comments, unquoted
+// names, newline separated members, trailing commas.
+func renderHjson(r *rand.Rand, v interface{}, ind string) string {
+	switch x := v.(type) {
+	case map[string]interface{}:
+		keys := make([]string, 0, len(x))
+		for k := range x {
+			keys = append(keys, k)
+		}
+		sort.Strings(keys)
+		var b strings.Builder
+		b.WriteString("{\n")
+		if r.Intn(2) == 0 {
+			b.WriteString(ind + "  # a comment\n")
+		}
+		for _, k := range keys {
+			name := k
+			simple := k != ""
+			for _, c := range k {
+				if !(c >= 'a' && c <= 'z') {
+					simple = false
+				}
+			}
+			if !simple || r.Intn(3) == 0 {
+				q, _ := json.Marshal(k)
+				name = string(q)
+			}
+			b.WriteString(ind + "  " + name + ": " + renderHjson(r, x[k], ind+"  "))
+			if r.Intn(2) == 0 {
+				b.WriteString(",")
+			}
+			b.WriteString("\n")
+		}
+		b.WriteString(ind + "}")
+		return b.String()
+	case []interface{}:
+		var el []string
+		for _, e := range x {
+			el = append(el, renderHjson(r, e, ind+"  "))
+		}
+		s := "[" + strings.Join(el, ", ")
+		if len(el) > 0 && r.Intn(2) == 0 {
+			s += ","
+		}
+		return s + "]"
+	}
+	q, _ := json.Marshal(v)
+	return string(q)
+}
+
+// renderDoc writes the document in the syntax of one front-end. The styles
+// other than JSON are read differently (or not at all) by the other loaders.
+func renderDoc(r *rand.Rand, doc interface{}, style string) string {
+	switch style {
+	case "yaml-block":
+		if b, err := yamlv2.Marshal(doc); err == nil {
+			return string(b)
+		}
+	case "hjson-native":
+		return renderHjson(r, doc, "") + "\n"
+	case "empty":
+		return pick(r, []string{"", "\n", "  \n"})
+	}
+	if r.Intn(3) == 0 {
+		b, _ := json.MarshalIndent(doc, "", "  ")
+		return string(b)
+	}
+	b, _ := json.Marshal(doc)
+	return string(b)
+}
+
+func genStyle(r *rand.Rand) string {
+	switch k := r.Intn(100); {
+	case k < 62:
+		return "json"
+	case k < 80:
+		return "yaml-block"
+	case k < 95:
+		return "hjson-native"
+	}
+	return "empty"
 }
 
 // spliceRefs replaces some string leaves by references to the initial config.
@@ -1426,6 +1599,7 @@ func spliceRefs(r *rand.Rand, n *model.Node) {
 
 type fileArg struct {
 	name    string // base name
+	style   string
 	content string
 	write   bool
 	intent  string
@@ -1479,6 +1653,9 @@ func runFiles(res *harness.R, r *rand.Rand, idx int, verbose bool) {
 	os_ := genOptSet(r, false)
 	viaFlagSet := r.Intn(100) < 15
 	table := genTable(r)
+	if (table.kind == "fallback-only:yaml" || table.kind == "fallback-only:json" || table.kind == "yaml+yml+json") && r.Intn(2) == 0 {
+		viaFlagSet = true // the public wrapper that builds this table
+	}
 	var initTree *model.Node
 	if r.Intn(10) >= 7 {
 		initTree = gen.TopDict(r, gen.TreeOpts{Depth: 2, Prims: simplePrims}, 2)
@@ -1527,6 +1704,14 @@ func runFiles(res *harness.R, r *rand.Rand, idx int, verbose bool) {
 			t.Set(lk, l)
 		}
 	}
+	if r.Intn(3) > 0 {
+		// every document has a setting that is only ever spelled with a dotted
+		// name ("d.x": ...): what each file means depends on the options it is
+		// loaded with, the first file as much as the last
+		for i, t := range trees {
+			t.Set("d", model.Dict().Set(pick(r, []string{"x", "y"}), model.P(fmt.Sprintf("d%d", i))))
+		}
+	}
 	failAt := -1
 	if r.Intn(100) < 40 {
 		failAt = r.Intn(n)
@@ -1537,21 +1722,44 @@ func runFiles(res *harness.R, r *rand.Rand, idx int, verbose bool) {
 		if table.kind != "all4" && r.Intn(3) == 0 {
 			ext = pick(r, foreignExts)
 		}
-		f := fileArg{name: fmt.Sprintf("f%d%s", i, ext), write: true, intent: "document", tree: t}
-		var b []byte
-		doc := t.ToGo()
+		style := genStyle(r)
+		if r.Intn(3) > 0 {
+			// mostly under a name that promises the syntax
+			switch style {
+			case "yaml-block":
+				ext = pick(r, []string{".yaml", ".yml"})
+			case "hjson-native":
+				ext = ".hjson"
+			}
+		}
+		f := fileArg{name: fmt.Sprintf("f%d%s", i, ext), style: style, write: true, intent: "document", tree: t}
+		var doc interface{} = t.ToGo()
 		if dotted {
 			if m, did := flatten(r, t); did {
 				doc = m
 				f.intent = "document-dotted"
 			}
 		}
-		if r.Intn(3) == 0 {
-			b, _ = json.MarshalIndent(doc, "", "  ")
-		} else {
-			b, _ = json.Marshal(doc)
+		if m, ok := doc.(map[string]interface{}); ok {
+			if d := t.D["d"]; d != nil && d.IsSub() && len(d.D) > 0 {
+				delete(m, "d")
+				for _, k2 := range d.SortedKeys() {
+					m["d."+k2] = d.D[k2].ToGo()
+				}
+				f.intent = "document-dotted"
+			}
 		}
-		f.content = string(b)
+		f.content = renderDoc(r, doc, style)
+		if style != "json" {
+			f.intent += "/" + style
+			if style == "empty" {
+				f.tree = model.Dict()
+			}
+			// the tree is what the document says only for its own front-end
+			if fe := table.frontEnd(f.name); (style == "yaml-block" && fe != "yaml") || (style == "hjson-native" && fe != "hjson") || (style == "empty" && fe != "yaml") {
+				f.tree = nil
+			}
+		}
 		if i == failAt || (failAt >= 0 && i > failAt && r.Intn(4) == 0) {
 			f.tree = nil
 			switch r.Intn(6) {
@@ -1562,6 +1770,9 @@ func runFiles(res *harness.R, r *rand.Rand, idx int, verbose bool) {
 			case 3, 4:
 				if len(f.content) > 2 {
 					f.content = f.content[:1+r.Intn(len(f.content)-2)]
+					for len(f.content) > 1 && !utf8.ValidString(f.content) { // do not cut inside a rune
+						f.content = f.content[:len(f.content)-1]
+					}
 				} else {
 					f.content = "{"
 				}
@@ -1676,6 +1887,25 @@ func runFiles(res *harness.R, r *rand.Rand, idx int, verbose bool) {
 			before = st.canon
 		}
 		mo.argClass = ""
+		mo.fresh = func() bool {
+			ok := false
+			harness.Safe(func() {
+				l, _ := table.lookup(path)
+				if l == nil {
+					return
+				}
+				ff := flag.NewFlagFiles(nil, table.m, os_.opts()...)
+				ff.Set(path)
+				c, err := l(path, os_.opts()...)
+				if err != nil || ff.Error() != nil {
+					return
+				}
+				a, e1 := obs.Top(ff.Config(), os_.read()...)
+				b, e2 := obs.Top(c, os_.read()...)
+				ok = e1 == nil && e2 == nil && a == b
+			})
+			return ok
+		}
 		var ret error
 		panicked, pv, where := harness.Safe(func() { ret = set(path) })
 		res.Eval(1)
@@ -1694,7 +1924,7 @@ func runFiles(res *harness.R, r *rand.Rand, idx int, verbose bool) {
 					res.Ev("fallback_loads", 1)
 					if filepath.Ext(f.name) != "" {
 						res.Ev("fallback_loads_of_a_foreign_extension", 1)
-						if f.intent == "document-dotted" || os_.varexp {
+						if strings.HasPrefix(f.intent, "document-dotted") || os_.varexp {
 							// what the file means depends on the load-time options
 							res.Ev("fallback_loads_of_a_foreign_extension_option_sensitive", 1)
 						}
@@ -1726,6 +1956,14 @@ func runFiles(res *harness.R, r *rand.Rand, idx int, verbose bool) {
 		} else {
 			res.SetAdd("post_failure", f.intent)
 		}
+		res.SetAdd("doc_style", f.style+"->"+table.frontEnd(f.name)+":"+strings.SplitN(kind, "/", 2)[0])
+		if kind == "fail:load" && f.write {
+			res.Ev("documents_their_front_end_rejects", 1)
+			if fv.Error() == nil {
+				// not a failing argument for the flag: which front-end read it?
+				otherFrontEnd(res, st, table, path, f, cfgPtr, desc)
+			}
+		}
 		mo.step(i, f.name, kind, ret, true, cfgPtr, fv.Error())
 		if fv.Config() != cfgPtr {
 			res.Violate("config-pointer-changed", "Config() no longer returns the config handed out at creation after file %d; %s", i, desc())
@@ -1742,6 +1980,38 @@ func runFiles(res *harness.R, r *rand.Rand, idx int, verbose bool) {
 		fmt.Fprintf(&k, "|%s:%s:%s", f.name, f.intent, f.content)
 	}
 	finish(res, mo, os_, mode, effective, k.String())
+}
+
+// otherFrontEnd: the reference's loader rejects the file but the flag recorded
+// no error. If the flag's config equals the reference plus the file as read by
+// ANOTHER front-end, the flag used the wrong loader.
+func otherFrontEnd(res *harness.R, st *refState, table loaderTable, path string, f fileArg, cfg *ucfg.Config, desc func() string) {
+	got, gerr := obs.Top(cfg, st.os.read()...)
+	if gerr != nil {
+		return
+	}
+	for _, fb := range fallbackLoaders {
+		if fb.name == table.frontEnd(path) {
+			continue
+		}
+		match := false
+		harness.Safe(func() {
+			c, err := fb.l(path, st.os.opts()...)
+			if err != nil {
+				return
+			}
+			tmp, err := ucfg.NewFrom(st.ref, st.os.opts()...)
+			if err != nil || tmp.Merge(c, st.os.opts()...) != nil {
+				return
+			}
+			want, err := obs.Top(tmp, st.os.read()...)
+			match = err == nil && want == got
+		})
+		if match {
+			res.Violate("file-read-by-another-front-end", "%s belongs to the %s loader of this flag (which rejects it), but the flag's config %s is what the %s loader makes of it; %s", f.name, table.frontEnd(path), got, fb.name, desc())
+			return
+		}
+	}
 }
 
 // fileReference loads the file with the loader of its extension and the
